@@ -82,6 +82,7 @@ class WireStack:
             tr.protocol = proto
             stack.transport, stack.protocol = tr, proto
             stack.line.sink["n2h"] = proto.data_received
+            stack.line.on_protocol_error = stack._fatal_error
             stack.connects += 1
             loop.call_soon(proto.connection_made, tr)
             return tr, proto
@@ -98,6 +99,20 @@ class WireStack:
 
         self.ezsp = ezsp_mod.EZSP(ncpsim.device_config(self.path))
         return self.ezsp
+
+    def _fatal_error(self, exc):
+        """protocol.data_received() raised: real transports log, force-close and report the loss."""
+        proto, tr = self.protocol, self.transport
+        if proto is None or tr._closing:
+            return
+        tr._closing = True
+        self.line.closed = True
+
+        def _cl():
+            self.trace.append(("conn_lost", self.loop.time(), "fatal:" + repr(exc)[:80]))
+            proto.connection_lost(exc)
+
+        self.loop.call_soon(_cl)
 
     def lose_connection(self, kind="error"):
         """As real transports do: noticed in an I/O callback, delivered through call_soon."""
